@@ -46,6 +46,11 @@ func parseScanArgs(args [][]byte) (cursor []byte, match string, count int, err e
 
 		i++
 	}
+	if count < 0 {
+		// as in the store: a count that is not positive means the default count. The handlers
+		// index the last element of a page that is not shorter than count.
+		count = 0
+	}
 	if count > common.MAX_BATCH_NUM {
 		// the store never returns more than MAX_BATCH_NUM elements for one scan call, so a
 		// full page of that size must not be taken for the last page
